@@ -121,6 +121,8 @@ class FormatSpec(c01.ProgSpec):
                 atoms.append({'sig': 'linenos:source-line-without-number', 'msg': fl})
         # (f) the same docstring collected the way a module's docstring is (freeform extraction lumps the groups
         #     of a docstring into one doctest whose parts keep their distance): numbers still name real lines
+        import copy
+        import pickle
         from xdoctest import core
         for L in (1, 41):
             try:
@@ -132,6 +134,16 @@ class FormatSpec(c01.ProgSpec):
                 for offset in (True, False):
                     fl = e.format_src(linenos=True, colored=False, want=True, offset_linenos=offset, prefix=True)
                     n += 1
+                    # a copy of the parsed doctest (copy / deepcopy / pickle round trip) is the same doctest: same display
+                    for cname, cp in (('copy', copy.copy), ('deepcopy', copy.deepcopy), ('pickle', lambda o: pickle.loads(pickle.dumps(o)))):
+                        try:
+                            fl_c = cp(e).format_src(linenos=True, colored=False, want=True, offset_linenos=offset, prefix=True)
+                            n += 1
+                            if fl_c != fl:
+                                atoms.append({'sig': 'linenos:extracted:%s-displays-differently' % cname,
+                                              'msg': 'docstring at line %d, the %s of the doctest is displayed as\n%s\nthe doctest itself as\n%s' % (L, cname, fl_c, fl)})
+                        except Exception as ex:
+                            atoms.append({'sig': 'linenos:extracted:%s-raises:%s' % (cname, type(ex).__name__), 'msg': repr(ex)})
                     base = L if offset else (1 - (e.lineno - L))
                     for line in fl.split('\n'):
                         mm = NUM_RE.match(line)
